@@ -456,7 +456,7 @@ fn gen_op(s: &mut Choices, kind: Kind, st: &mut St) -> Option<Op> {
                     1 => 240 + s.below(20),
                     2 => 41 + s.below(200),
                     // (rarely) around the powers of two up to the largest string a node can hold
-                    3 if s.chance(64) => s.pick(&[511u32, 512, 1023, 1024, 4095, 4096, 32_767, 32_768, 65_524, 65_525]),
+                    3 if s.chance(10) => s.pick(&[511u32, 512, 1023, 1024, 4095, 4096, 32_767, 32_768, 65_524, 65_525]),
                     _ => s.below(41),
                 };
                 Op::RhctIsa(len)
@@ -482,7 +482,7 @@ fn gen_op(s: &mut Choices, kind: Kind, st: &mut St) -> Option<Op> {
                     0 => s.below(3),
                     1 => 250 + s.below(12),
                     2 => 41 + s.below(210),
-                    3 if s.chance(64) => s.pick(&[511u32, 512, 1023, 1024, 4095, 4096]),
+                    3 if s.chance(16) => s.pick(&[511u32, 512, 1023, 1024, 4095, 4096]),
                     _ => s.below(41),
                 };
                 Op::RimtPlat { id: s.u16(), name_len, maps: gen_idmaps(s, st.iommus) }
@@ -635,6 +635,9 @@ pub fn gen_program_of(s: &mut Choices, kind: Kind) -> Program {
                 3 => 509 + s.below(6),
                 _ => 2 + s.below(40),
             };
+            // (a giant string is not repeated hundreds of times: tens of MiB per observed step)
+            let giant = matches!(&op, Op::RhctIsa(l) if *l > 300) || matches!(&op, Op::RimtPlat { name_len, .. } if *name_len > 300);
+            let n = if giant { n.min(3) } else { n };
             let n = n.min((MAX_FLAT - flat) as u32).max(1);
             handle_gain(&op, &mut st, n - 1);
             flat += n as u64;
